@@ -940,7 +940,8 @@ def main():
         run_phase(run, "%s/field-histories" % cfg, fe_chain_case, [(x, y, depth if main_cfg else 2) for x in cv for y in cv[:6]], setup=setup(cfg),
                   rule="history search: every word of length <= %d over {add, negate, mul_int 2, mul_int 3, half, normalize_weak, add_int} from each (a,b) pair, then each of 11 consumers; model state = (value mod p, magnitude bound); VERIFY builds assert the library's own magnitude bookkeeping on every step" % depth)
         ss = sc if main_cfg else sc[::2]
-        run_phase(run, "%s/scalar" % cfg, scalar_case, [(x, ss) for x in ss], setup=setup(cfg),
+        sa = sc              # every configuration sees the full unary alphabet (incl. all limb boundaries); only the pair partners are thinned
+        run_phase(run, "%s/scalar" % cfg, scalar_case, [(x, ss) for x in sa], setup=setup(cfg),
                   rule="scalar set_b32/seckey, negate, sqr, inverse(+var), half, predicates, cond_negate, split_128, split_lambda (equation + 128-bit bounds), get_bits at every offset x 10 widths, cadd_bit at every bit, and add/mul/eq/cmov/mul_shift_var(10 shifts) on SC x SC")
         run_phase(run, "%s/scalar-misc" % cfg, scalar_misc_case, [0], setup=setup(cfg), nproc=1)
         ge = GEnv(cfg)
